@@ -15,7 +15,6 @@ def Stmt.lhs : Stmt → Node
   | .noMatch l _ => l
   | .simple l _ _ _ => l
   | .nest l _ _ _ _ _ => l
-  | .dropped l _ => l
   | .sliceCopy l _ _ => l
   | .sliceLoop l _ _ => l
   | .sliceCast l _ _ _ => l
@@ -92,91 +91,102 @@ theorem sliceToSlice_lhs (lhs rhs : Node) (s : Stmt) (h : ctx.sliceToSlice lhs r
     · cases h; rfl
     · cases h
 
-/-- what the pass state may hold: a statement about `lhs`, and when it is a nested block, the block's
-body came from the recursive call on that very member -/
+/-- what a statement returned for member `lhs` looks like: it is about `lhs`, and when it is a nested
+block, the block's body came from the recursive call on that very member and is not empty -/
+def StmtInv (rec : Node → Node → Outcome (List Stmt)) (lhs : Node) (s : Stmt) : Prop :=
+  Stmt.lhs s = lhs ∧ (∀ l r i n body w, s = .nest l r i n body w → l = lhs ∧ rec lhs r = .ok body ∧ body ≠ [])
+
+theorem stmtInv_of_lhs_nonNest (rec : Node → Node → Outcome (List Stmt)) (lhs : Node) (s : Stmt)
+    (hl : Stmt.lhs s = lhs) (hn : ∀ l r i n body w, s ≠ .nest l r i n body w) : StmtInv rec lhs s :=
+  ⟨hl, fun l r i n body w he => absurd he (hn l r i n body w)⟩
+
+theorem noMatchAt_inv (rec : Node → Node → Outcome (List Stmt)) (pos : String) (lhs : Node) (pre : List String)
+    (s : Stmt) (h : ctx.noMatchAt pos lhs pre = .ok s) : StmtInv rec lhs s := by
+  unfold BCtx.noMatchAt at h; cases h
+  exact ⟨rfl, fun l r i n body w he => by cases he⟩
+
+theorem sliceToSlice_nonNest (lhs rhs : Node) (s : Stmt) (h : ctx.sliceToSlice lhs rhs = .ok (some s)) :
+    ∀ l r i n body w, s ≠ .nest l r i n body w := by
+  intro l r i n body w he
+  unfold BCtx.sliceToSlice at h
+  simp only at h
+  split at h
+  · split at h <;> (cases h; cases he)
+  · split at h
+    · cases h; cases he
+    · cases h
+
+/-- whatever one candidate yields is a statement about the member it was tried for -/
+theorem tryCand_inv (rec : Node → Node → Outcome (List Stmt)) (lhs rhsStruct cand : Node) (warns w' : List String)
+    (s : Stmt) (h : ctx.tryCand rec lhs rhsStruct warns cand = .ok (some s, w')) : StmtInv rec lhs s := by
+  unfold BCtx.tryCand at h
+  simp only [bind, Outcome.bind, pure] at h
+  split at h
+  · cases h
+  · cases hsl : (if ctx.env.isSliceType (lhs.exprType ctx.env) && ctx.env.isSliceType (cand.exprType ctx.env)
+        then ctx.sliceToSlice lhs cand else Outcome.ok none) with
+    | error e => simp only [hsl] at h; cases h
+    | panic p => simp only [hsl] at h; cases h
+    | ok sl =>
+      simp only [hsl] at h
+      cases sl with
+      | some s0 =>
+        simp only at h
+        cases h
+        split at hsl
+        · exact stmtInv_of_lhs_nonNest rec lhs s (sliceToSlice_lhs ctx _ _ _ hsl) (sliceToSlice_nonNest ctx _ _ _ hsl)
+        · cases hsl
+      | none =>
+        simp only at h
+        cases hc : ctx.castNode (lhs.exprType ctx.env) cand with
+        | error e => simp only [hc] at h; cases h
+        | panic p => simp only [hc] at h; cases h
+        | ok r =>
+          obtain ⟨c?, w⟩ := r
+          simp only [hc] at h
+          cases c? with
+          | some c =>
+            simp only at h
+            cases h
+            exact ⟨rfl, fun l r i n body w he => by cases he⟩
+          | none =>
+            simp only at h
+            split at h
+            · cases hr : rec lhs cand with
+              | error e => simp only [hr] at h; cases h
+              | panic p => simp only [hr] at h; cases h
+              | ok body =>
+                simp only [hr] at h
+                split at h
+                · cases h
+                · rename_i hne
+                  cases h
+                  refine ⟨rfl, ?_⟩
+                  intro l r i n body' w'' he
+                  cases he
+                  exact ⟨rfl, hr, by simpa using hne⟩
+            · cases h
+
+/-- what the pass state may hold -/
 def PassInv (rec : Node → Node → Outcome (List Stmt)) (lhs : Node) (st : BCtx.Pass) : Prop :=
-  ∀ s, st.a = some s → Stmt.lhs s = lhs ∧
-    (∀ l r i n body w, s = .nest l r i n body w → l = lhs ∧ rec lhs r = .ok body ∧ body ≠ [])
+  ∀ s, st.a = some s → StmtInv rec lhs s
 
 theorem handler_inv (rec : Node → Node → Outcome (List Stmt)) (lhs rhsStruct cand : Node) (st st' : BCtx.Pass)
     (hinv : PassInv rec lhs st) (h : ctx.handler rec lhs rhsStruct st cand = .ok st') : PassInv rec lhs st' := by
   unfold BCtx.handler at h
-  simp only [bind, Outcome.bind, pure] at h
-  by_cases hd : st.done = true
-  · simp only [hd, ↓reduceIte] at h; cases h; exact hinv
-  · simp only [hd, Bool.false_eq_true, ↓reduceIte] at h
-    split at h
-    · cases h; exact hinv
-    · -- a candidate of the right name
-      cases hsl : (if ctx.env.isSliceType (lhs.exprType ctx.env) && ctx.env.isSliceType (cand.exprType ctx.env)
-          then ctx.sliceToSlice lhs cand else Outcome.ok none) with
-      | error e => simp only [hsl] at h; cases h
-      | panic p => simp only [hsl] at h; cases h
-      | ok sl =>
-        simp only [hsl] at h
-        cases sl with
-        | some s =>
-          simp only at h
-          cases h
-          intro s' hs'
-          simp only [Option.some.injEq] at hs'
-          subst hs'
-          have hl : Stmt.lhs s = lhs := by
-            split at hsl
-            · exact sliceToSlice_lhs ctx _ _ _ hsl
-            · cases hsl
-          refine ⟨hl, ?_⟩
-          intro l r i n body w he
-          -- a slice statement is not a nested block
-          split at hsl
-          · have := hsl
-            unfold BCtx.sliceToSlice at this
-            simp only at this
-            split at this
-            · split at this <;> (cases this; cases he)
-            · split at this
-              · cases this; cases he
-              · cases this
-          · cases hsl
-        | none =>
-          simp only at h
-          cases hc : ctx.castNode (lhs.exprType ctx.env) cand with
-          | error e => simp only [hc] at h; cases h
-          | panic p => simp only [hc] at h; cases h
-          | ok r =>
-            obtain ⟨c?, w⟩ := r
-            simp only [hc] at h
-            cases c? with
-            | some c =>
-              simp only at h
-              cases h
-              intro s' hs'
-              simp only [Option.some.injEq] at hs'
-              subst hs'
-              exact ⟨rfl, fun l r i n body w he => by cases he⟩
-            | none =>
-              simp only at h
-              split at h
-              · -- both structs: the nested block
-                cases hr : rec lhs cand with
-                | error e => simp only [hr] at h; cases h
-                | panic p => simp only [hr] at h; cases h
-                | ok body =>
-                  simp only [hr] at h
-                  split at h
-                  · cases h
-                    intro s' hs'; cases hs'
-                  · rename_i hne
-                    cases h
-                    intro s' hs'
-                    simp only [Option.some.injEq] at hs'
-                    subst hs'
-                    refine ⟨rfl, ?_⟩
-                    intro l r i n body' w' he
-                    cases he
-                    exact ⟨rfl, hr, by simpa using hne⟩
-              · cases h
-                intro s' hs'; cases hs'
+  split at h
+  · cases h; exact hinv
+  · cases ht : ctx.tryCand rec lhs rhsStruct st.warns cand with
+    | error e => simp only [ht] at h; cases h
+    | panic p => simp only [ht] at h; cases h
+    | ok r =>
+      obtain ⟨a, w⟩ := r
+      simp only [ht] at h
+      cases h
+      intro s hs
+      simp only at hs
+      subst hs
+      exact tryCand_inv ctx rec lhs rhsStruct cand st.warns w s ht
 
 theorem foldHandler_inv (rec : Node → Node → Outcome (List Stmt)) (lhs rhsStruct : Node) :
     ∀ (cands : List Node) (st st' : BCtx.Pass), PassInv rec lhs st →
@@ -194,73 +204,23 @@ theorem foldHandler_inv (rec : Node → Node → Outcome (List Stmt)) (lhs rhsSt
       simp only [hh] at h
       exact ih st1 st' (handler_inv ctx rec lhs rhsStruct c st st1 hinv hh) h
 
-/-- what a statement returned for member `lhs` looks like -/
-def StmtInv (rec : Node → Node → Outcome (List Stmt)) (lhs : Node) (s : Stmt) : Prop :=
-  Stmt.lhs s = lhs ∧ (∀ l r i n body w, s = .nest l r i n body w → l = lhs ∧ rec lhs r = .ok body ∧ body ≠ [])
-
-theorem stmtInv_of_lhs_nonNest (rec : Node → Node → Outcome (List Stmt)) (lhs : Node) (s : Stmt)
-    (hl : Stmt.lhs s = lhs) (hn : ∀ l r i n body w, s ≠ .nest l r i n body w) : StmtInv rec lhs s :=
-  ⟨hl, fun l r i n body w he => absurd he (hn l r i n body w)⟩
-
-theorem noMatchAt_inv (rec : Node → Node → Outcome (List Stmt)) (pos : String) (lhs : Node) (pre : List String)
-    (s : Stmt) (h : ctx.noMatchAt pos lhs pre = .ok s) : StmtInv rec lhs s := by
-  unfold BCtx.noMatchAt at h; cases h
-  exact ⟨rfl, fun l r i n body w he => by cases he⟩
-
 theorem passInv_init (rec : Node → Node → Outcome (List Stmt)) (lhs : Node) : PassInv rec lhs {} := by
   intro s hs; cases hs
-
-theorem passInv_undone (rec : Node → Node → Outcome (List Stmt)) (lhs : Node) (st : BCtx.Pass)
-    (h : PassInv rec lhs st) : PassInv rec lhs { st with done := false } := h
 
 /-- `structFieldAndStructGettersAndFields` returns a statement about the member it was asked for -/
 theorem fieldDefault_inv (rec : Node → Node → Outcome (List Stmt)) (lhs rhsStruct : Node) (s : Stmt)
     (h : ctx.fieldDefault rec lhs rhsStruct = .ok s) : StmtInv rec lhs s := by
   unfold BCtx.fieldDefault at h
   simp only [bind, Outcome.bind, pure] at h
-  -- the getter pass
-  cases h1 : (if ctx.opts.getter = true then
-      foldOutcome (ctx.handler rec lhs rhsStruct) {}
-        (List.map (fun m => Node.method rhsStruct m.name m.results)
-          (List.filter ctx.env.compliesGetter (ctx.env.methodsOf (rhsStruct.exprType ctx.env))))
-    else Outcome.ok {}) with
-  | error e => simp only [h1] at h; cases h
-  | panic p => simp only [h1] at h; cases h
-  | ok st1 =>
-    simp only [h1] at h
-    have inv1 : PassInv rec lhs st1 := by
-      split at h1
-      · exact foldHandler_inv ctx rec lhs rhsStruct _ _ _ (passInv_init rec lhs) h1
-      · cases h1; exact passInv_init rec lhs
-    generalize hg : ({ st1 with done := false } : BCtx.Pass) = st1' at h
-    have inv1' : PassInv rec lhs st1' := by subst hg; exact inv1
-    cases ha : st1.a with
-    | some a =>
-      simp only [ha] at h
-      cases h
-      exact inv1 s ha
-    | none =>
-      simp only [ha] at h
-      by_cases hr : (ctx.opts.rule == MatchRule.name) = true
-      · simp only [hr, ↓reduceIte] at h
-        split at h
-        · rename_i st2 h2
-          have inv2 : PassInv rec lhs st2 := foldHandler_inv ctx rec lhs rhsStruct _ _ _ inv1' h2
-          cases hb : st2.a with
-          | some b =>
-            simp only [hb] at h
-            cases h
-            exact inv2 s hb
-          | none =>
-            simp only [hb] at h
-            split at h
-            · cases h
-              exact ⟨rfl, fun l r i n body w he => by cases he⟩
-            · exact noMatchAt_inv ctx rec _ _ _ _ h
-        · cases h
-        · cases h
-      · simp only [hr, Bool.false_eq_true, ↓reduceIte] at h
-        exact noMatchAt_inv ctx rec _ _ _ _ h
+  cases hf : foldOutcome (ctx.handler rec lhs rhsStruct) {} (ctx.candidates rhsStruct) with
+  | error e => simp only [hf] at h; cases h
+  | panic p => simp only [hf] at h; cases h
+  | ok st =>
+    simp only [hf] at h
+    have inv := foldHandler_inv ctx rec lhs rhsStruct _ _ _ (passInv_init rec lhs) hf
+    cases ha : st.a with
+    | some a => simp only [ha] at h; cases h; exact inv s ha
+    | none => simp only [ha] at h; exact noMatchAt_inv ctx rec _ _ _ _ h
 
 theorem createMapped_inv (rec : Node → Node → Outcome (List Stmt)) (lhs : Node) (pos : String) (n? : Option Node)
     (s : Stmt) (h : ctx.createMapped lhs pos n? = .ok s) : StmtInv rec lhs s := by
